@@ -138,16 +138,16 @@ Theorem C07_RandomSizedCrop_sampler_meets_the_hypotheses : forall d2h lo hi w2h 
 Proof. exact RandomSizedCrop_params. Qed.
 Print Assumptions C07_RandomSizedCrop_sampler_meets_the_hypotheses.
 
-(* CropAndPad never crops an axis away: for non-negative crop amounts whose sum on an axis is at most twice the
-   extent (every percent in (-1, 0], every px up to the extent per side) the amounts that reach the crop are
-   non-negative, not larger than requested, leave at least one voxel per axis, and are the requested ones whenever
-   those already leave a voxel *)
+(* CropAndPad never crops an axis away ("This transformation will never crop images below a height or width of 1"):
+   for ALL non-negative crop amounts the amounts that reach the crop are non-negative, not larger than requested,
+   leave at least one voxel per axis -- exactly one where the request left none -- and are the requested ones
+   whenever those already leave a voxel *)
 Theorem C07_CropAndPad_leaves_a_voxel_on_every_axis : forall pc pcm px t b l r c f H W D,
   (0 <= t)%Z -> (0 <= b)%Z -> (0 <= l)%Z -> (0 <= r)%Z -> (0 <= c)%Z -> (0 <= f)%Z -> (1 <= H)%Z -> (1 <= W)%Z -> (1 <= D)%Z ->
-  (t + b <= 2 * H)%Z -> (l + r <= 2 * W)%Z -> (c + f <= 2 * D)%Z ->
   let '(t', b', l', r', c', f') := CropAndPadS_prevent_zero pc pcm px (t, b, l, r, c, f) H W D in
   (0 <= t' <= t /\ 0 <= b' <= b /\ 0 <= l' <= l /\ 0 <= r' <= r /\ 0 <= c' <= c /\ 0 <= f' <= f /\
    1 <= H - (t' + b') /\ 1 <= W - (l' + r') /\ 1 <= D - (c' + f') /\
-   (1 <= H - (t + b) -> t' = t /\ b' = b) /\ (1 <= W - (l + r) -> l' = l /\ r' = r) /\ (1 <= D - (c + f) -> c' = c /\ f' = f))%Z.
+   (1 <= H - (t + b) -> t' = t /\ b' = b) /\ (1 <= W - (l + r) -> l' = l /\ r' = r) /\ (1 <= D - (c + f) -> c' = c /\ f' = f) /\
+   (H - (t + b) < 1 -> H - (t' + b') = 1) /\ (W - (l + r) < 1 -> W - (l' + r') = 1) /\ (D - (c + f) < 1 -> D - (c' + f') = 1))%Z.
 Proof. exact prevent_zero_leaves_a_voxel. Qed.
 Print Assumptions C07_CropAndPad_leaves_a_voxel_on_every_axis.
